@@ -94,13 +94,15 @@ def marked(r, v, i, kinds=None, shared=None):
 
 
 def owner_of(ev, cmds):
+    """which of the commands wrote this line, when that can be told (None otherwise — e.g. two processes asking for the very same edge)"""
     d = ev.get("data") or {}
+    owners = []
     for i, (req, ag, _) in enumerate(cmds):
         tag = "P%d" % i
-        if ev["type"] in ("new_task", "new_epic", "title") and str(d.get("title", "")).startswith(tag + " "): return i
-        if ev["type"] in ("claim", "tombstone") and d.get("agent_id") == ag: return i
-        if ev["type"] == "link" and req["cmd"] == "sequence" and [d.get("to_id"), d.get("from_id")] == req["args"]: return i
-    return None
+        if ev["type"] in ("new_task", "new_epic", "title") and str(d.get("title", "")).startswith(tag + " "): owners.append(i)
+        elif ev["type"] in ("claim", "tombstone") and d.get("agent_id") == ag: owners.append(i)
+        elif ev["type"] == "link" and req["cmd"] == "sequence" and [d.get("to_id"), d.get("from_id")] == req["args"]: owners.append(i)
+    return owners[0] if len(owners) == 1 else None
 
 
 def lines_problem(data):
